@@ -1,0 +1,71 @@
+// Verification hook (feature `verif_hooks` only, never part of a normal build).
+//
+// A prover that follows Algorithms 7 and 9 of the range proof exactly, except that the caller chooses the
+// "square" parts of the two decompositions x' - aa = x_a_1^2 + x_a_2 and bb - x' = x_b_1^2 + x_b_2 and that
+// nothing is required of the remainders (they may be negative). All sub-proofs are produced by the library's own
+// private provers. Used by the /verif monitors to play a prover that does not follow the protocol.
+
+use super::*;
+use crate::cl03::commitment::CL03Commitment;
+
+impl Boudot2000RangeProof {
+    #[allow(clippy::too_many_arguments)]
+    pub fn hook_prove_with_decomposition<H>(
+        value: &Integer,
+        commitment: &CL03Commitment,
+        g: &Integer,
+        h: &Integer,
+        n: &Integer,
+        rmin: &Integer,
+        rmax: &Integer,
+        square_part_a: &Integer,
+        square_part_b: &Integer,
+    ) -> Self
+    where
+        H: Digest,
+    {
+        let (t, l, s, s1, s2) = (Self::t, Self::l, Self::s, Self::s1, Self::s2);
+        let T = 2 * (t + l + 1) + ((rmax - rmin).complete().significant_bits());
+        let x = Integer::from(2).pow(T) * value;
+        let r = Integer::from(2).pow(T) * &commitment.randomness;
+        let E_prime = Integer::from(commitment.value.pow_mod_ref(&(Integer::from(2).pow(T)), n).unwrap());
+        let off = Integer::from(2).pow(l + t + rug::ops::DivRounding::div_floor(T, 2) + 1)
+            * Integer::from(Integer::from(rmax - rmin).sqrt_ref());
+        let aa = Integer::from(2).pow(T) * Integer::from(rmin) - &off;
+        let bb = Integer::from(2).pow(T) * Integer::from(rmax) + &off;
+        let x_a = &x - aa;
+        let x_b = bb - &x;
+        let x_a_1 = square_part_a.clone();
+        let x_a_2 = x_a - x_a_1.clone().pow(2);
+        let x_b_1 = square_part_b.clone();
+        let x_b_2 = x_b - x_b_1.clone().pow(2);
+        let bound = Integer::from(2).pow(s) * Integer::from(2).pow(T) * n - Integer::from(1);
+        let split = |total: Integer| -> (Integer, Integer) {
+            loop {
+                let r_1 = rand_int(-bound.clone(), bound.clone());
+                let r_2 = (&total - &r_1).complete();
+                if -bound.clone() <= r_2 && r_2 <= bound {
+                    return (r_1, r_2);
+                }
+            }
+        };
+        let (r_a_1, r_a_2) = split(r.clone());
+        let (r_b_1, r_b_2) = split(-r);
+        let com = |e: &Integer, rr: &Integer| -> Integer {
+            (Integer::from(g.pow_mod_ref(e, n).unwrap()) * Integer::from(h.pow_mod_ref(rr, n).unwrap())) % n
+        };
+        let E_a_1 = com(&x_a_1.clone().pow(2), &r_a_1);
+        let E_a_2 = com(&x_a_2, &r_a_2);
+        let E_b_1 = com(&x_b_1.clone().pow(2), &r_b_1);
+        let E_b_2 = com(&x_b_2, &r_b_2);
+        let proof_of_square_a = Self::proof_of_square::<H>(&x_a_1, &r_a_1, g, h, &E_a_1, l, t, rmax, s, s1, s2, n);
+        let proof_of_square_b = Self::proof_of_square::<H>(&x_b_1, &r_b_1, g, h, &E_b_1, l, t, rmax, s, s1, s2, n);
+        let proof_large_i_a = Self::proof_large_interval_specific::<H>(&x_a_2, &r_a_2, g, h, t, l, rmax, s, n, T);
+        let proof_large_i_b = Self::proof_large_interval_specific::<H>(&x_b_2, &r_b_2, g, h, t, l, rmax, s, n, T);
+        Self {
+            proof_of_tolerance: ProofWt { E_a_1, E_a_2, E_b_1, E_b_2, proof_of_square_a, proof_of_square_b, proof_large_i_a, proof_large_i_b },
+            E_prime,
+            E: commitment.value.clone(),
+        }
+    }
+}
